@@ -37,6 +37,7 @@ type histCfg struct {
 	R, K, W  int
 	sort     int
 	symClock bool
+	shareOpts bool // the replicas are created from ONE LogOptions value (or value copies of it made after its first use)
 	reload   bool // step kind "reload": rebuild the replica from its entries with NewLog (what the loaders do)
 	deny     bool // replica 0 refuses entries signed by the last writer
 	conc     int  // LogOptions.Concurrency of the replicas (0 = default)
@@ -56,7 +57,7 @@ type histCfg struct {
 
 func histParams() histCfg {
 	return histCfg{R: vx.Param("R", 2), K: vx.Param("K", 3), W: vx.Param("W", 2), sort: vx.Param("SORT", sortHash),
-		symClock: vx.Param("SYMCLOCK", 0) == 1, reload: vx.Param("RELOAD", 0) == 1, deny: vx.Param("DENY", 0) == 1, pcN: vx.Param("PCN", 1), emptyAt: vx.Param("EMPTYAT", -1), realIO: vx.Param("REALIO", 0) == 1, setID: vx.Param("SETID", 0) == 1, partial: vx.Param("PARTIAL", 0) >= 1, older: vx.Param("PARTIAL", 0) == 2, denyP: vx.Param("DENYP", -1), pcAlt: vx.Param("PCALT", 0), denyP0: vx.Param("DENYP0", 0) == 1, closing: vx.Param("CLOSE", 0) == 1, fork: vx.Param("FORKOP", 0) == 1, mixIO: vx.Param("MIXIO", 0) == 1, conc: vx.Param("LOGCONC", 0)}
+		symClock: vx.Param("SYMCLOCK", 0) == 1, reload: vx.Param("RELOAD", 0) == 1, deny: vx.Param("DENY", 0) == 1, pcN: vx.Param("PCN", 1), emptyAt: vx.Param("EMPTYAT", -1), realIO: vx.Param("REALIO", 0) == 1, setID: vx.Param("SETID", 0) == 1, partial: vx.Param("PARTIAL", 0) >= 1, older: vx.Param("PARTIAL", 0) == 2, denyP: vx.Param("DENYP", -1), pcAlt: vx.Param("PCALT", 0), denyP0: vx.Param("DENYP0", 0) == 1, closing: vx.Param("CLOSE", 0) == 1, fork: vx.Param("FORKOP", 0) == 1, mixIO: vx.Param("MIXIO", 0) == 1, conc: vx.Param("LOGCONC", 0), shareOpts: vx.Param("SHAREOPTS", 0) == 1}
 }
 
 var pcTable = []int{0, 2, 4, 3, 8, -1, 16, 1}
@@ -121,8 +122,24 @@ func newHist(cfg histCfg) *hist {
 	for r := 0; r < cfg.R; r++ {
 		h.cur = append(h.cur, r%cfg.W)
 	}
+	var shared *ipfslog.LogOptions
+	if cfg.shareOpts {
+		// a caller that keeps one options value around: it has been through NewLog once already (for a log nobody
+		// uses), every replica is created from it or from a value copy of it
+		shared = &ipfslog.LogOptions{SortFn: h.sortFn(), IO: h.io(), Concurrency: uint(cfg.conc)}
+		newLogOpt(h.api, h.writerOf(0), shared)
+	}
 	for r := 0; r < cfg.R; r++ {
 		o := &ipfslog.LogOptions{SortFn: h.sortFn(), IO: h.ioFor(r), Concurrency: uint(cfg.conc)}
+		if shared != nil && !(cfg.realIO && cfg.mixIO) {
+			o = shared
+			if (cfg.deny && r == 0 && cfg.W > 1) || (cfg.denyP >= 0 && (r == 0 || !cfg.denyP0)) || cfg.symClock {
+				c := *shared
+				c.AccessController = nil
+				o = &c
+			}
+			vx.Cover("shared-options")
+		}
 		if cfg.deny && r == 0 && cfg.W > 1 {
 			o.AccessController = &denyWriter{id: h.ids[cfg.W-1].ID}
 		}
@@ -131,7 +148,7 @@ func newHist(cfg histCfg) *hist {
 		}
 		h.acs = append(h.acs, o.AccessController)
 		if cfg.symClock {
-			o.Clock = entry.NewLamportClock(h.writerOf(r).PublicKey, vx.IntRange("clock0", 0, 1<<40))
+			o.Clock = entry.NewLamportClock(h.writerOf(r).PublicKey, vx.IntRange("clock0", 0, 1<<62))
 		}
 		h.logs = append(h.logs, newLogOpt(h.api, h.writerOf(r), o))
 	}
@@ -639,6 +656,20 @@ func H_C01_hist() {
 				all[hstr(e)] = true
 				allEntries = append(allEntries, e)
 			}
+		}
+	}
+	// the replicas themselves: any two that hold the same set of entries expose the same heads and values
+	for a := 0; a < R; a++ {
+		for b := a + 1; b < R; b++ {
+			ea, eb := hashSet(entriesOf(h.logs[a])), hashSet(entriesOf(h.logs[b]))
+			if !sameSet(ea, eb) {
+				continue
+			}
+			vx.Assert("C01", sameSet(hashSet(h.logs[a].Heads().Slice()), hashSet(h.logs[b].Heads().Slice())), "two replicas holding the same entries have the same heads")
+			if h.strictTotal() {
+				vx.Assert("C01", sameSeq(h.logs[a].Values().Slice(), h.logs[b].Values().Slice()), "two replicas holding the same entries have the same linearised values under a strict total ordering")
+			}
+			vx.Cover("replicas-with-equal-entries")
 		}
 	}
 	// X absorbs the replicas in index order; Y in a symbolic permutation, with a symbolic grouping
